@@ -7,7 +7,11 @@
 // the Lean small-step model (lean/Sentinel/Model/BreakerRace.lean).
 //
 //	cb.new <ec|er|sr> <retryTimeoutMs> <minRequestAmount> <threshold: int for ec, f:<bits> for er/sr> <probeNum> <maxRtMs>
-//	thread <tid> <item>+        item = tp | tpb | c:<rt>:ok | c:<rt>:err | rd:<retryTimeoutMs>:<minReq>:<threshold>:<probeNum>:<maxRtMs>
+//	rule <id> <retryTimeoutMs> <minRequestAmount> <threshold> <probeNum> <maxRtMs>      (rule table; cb.new is rule 0)
+//	thread <tid> <item>+        item = tp | tpb | c:<rt>:ok | c:<rt>:err
+//	                                 | rd:<retryTimeoutMs>:<minReq>:<threshold>:<probeNum>:<maxRtMs>   LoadRules([that rule])
+//	                                 | rl:<e>,<e>,…   LoadRulesOfResource(res, rules); e = rule id | x (a pass-through rule of a
+//	                                   custom strategy whose generator yields at cb.x.rebuild: a yield point INSIDE the rebuild)
 //	sched <entry>*              entry = <tid> | tick:<ms>
 //	results | log | final
 //
@@ -46,8 +50,23 @@ type call struct {
 	blocked bool
 	rt      uint64
 	err     bool
-	reload  *cb.Rule // non-nil: LoadRules with this rule, parked at the harness's own yield point cb.x.reload before
+	reload  []*cb.Rule // non-nil: a rule load, parked at the harness's own yield point cb.x.reload before
+	ofRes   bool       // LoadRulesOfResource (rl:) instead of LoadRules (rd:)
+	yields  int        // pass-through rules in the list: yield points cb.x.rebuild inside the rebuild
 }
+
+// customStrategy is a circuit breaking strategy of the harness: its breakers let everything pass; its generator —
+// called by BuildResourceCircuitBreaker in the middle of the rebuild loop, with no lock on the breaker map held —
+// yields, which gives the scheduler a step boundary inside the rebuild.
+const customStrategy cb.Strategy = 100
+
+type passBreaker struct{ rule *cb.Rule }
+
+func (p *passBreaker) BoundRule() *cb.Rule                 { return p.rule }
+func (p *passBreaker) BoundStat() interface{}              { return nil }
+func (p *passBreaker) TryPass(_ *base.EntryContext) bool   { return true }
+func (p *passBreaker) CurrentState() cb.State              { return cb.Closed }
+func (p *passBreaker) OnRequestComplete(_ uint64, _ error) {}
 
 type note struct{ prev, to cb.State }
 
@@ -70,18 +89,26 @@ type Interp struct {
 	kind    string
 	res     string
 	rw      *base.ResourceWrapper
-	objs    []cb.CircuitBreaker // every breaker object the resource has had in this case, in order of appearance
+	objs    []cb.CircuitBreaker // every (built-in) breaker object the resource has had in this case, in order of appearance
+	table   []*cb.Rule          // rule table (templates): cb.new is rule 0
+	pub     []int               // the published breaker list as last seen (object indices)
+	snaps   [][][]int           // per thread: snapshots of the list taken by its checks / completions since the last token
 	progs   [][]call
 	log     []note
 	logTid  []int
 	results [][]bool
-	bound   []int // per thread: index of the object its call under way was looked up as (-1: none)
 	ran     bool
 }
 
 func New() vh.Interp {
 	vh.Silence()
 	it := &Interp{clk: vh.NewClock(1900000000000)}
+	if err := cb.SetCircuitBreakerGenerator(customStrategy, func(r *cb.Rule, _ interface{}) (cb.CircuitBreaker, error) {
+		verifhook.Yield("cb.x.rebuild")
+		return &passBreaker{r}, nil
+	}); err != nil {
+		panic(err)
+	}
 	return it
 }
 
@@ -91,7 +118,7 @@ func (it *Interp) Reset() {
 	it.ncase++
 	it.base = 1900000000000 + it.ncase*intervalMs
 	it.clk.SetMs(it.base)
-	it.kind, it.objs, it.progs, it.log, it.logTid, it.results, it.ran = "", nil, nil, nil, nil, nil, false
+	it.kind, it.objs, it.table, it.pub, it.progs, it.log, it.logTid, it.results, it.ran = "", nil, nil, nil, nil, nil, nil, nil, false
 }
 
 func stc(s cb.State) string {
@@ -108,7 +135,7 @@ func stc(s cb.State) string {
 
 var points = map[string]string{
 	"cb.state.get": "sg", "cb.state.set": "ss", "cb.state.cas": "sc", "cb.retry.load": "rl", "cb.retry.store": "rs",
-	"cb.probe.add": "pa", "cb.probe.reset": "pr", "cb.probe.load": "pl", "cb.x.reload": "rd",
+	"cb.probe.add": "pa", "cb.probe.reset": "pr", "cb.probe.load": "pl", "cb.x.reload": "rd", "cb.x.rebuild": "rb",
 }
 
 func tf(b bool) string {
@@ -132,20 +159,53 @@ func (it *Interp) dl(k int) string {
 	return strconv.FormatUint(d-it.base, 10)
 }
 
-// live returns the index of the resource's current breaker object (registering it when seen for the first time).
-func (it *Interp) live() int {
-	bs := getBreakersOfResource(it.res)
-	if len(bs) != 1 {
-		panic(fmt.Sprintf("resource has %d breakers", len(bs)))
+// list returns the resource's breaker list as the rule manager hands it to a request right now (object indices; the
+// harness's pass-through breakers are skipped), registering objects seen for the first time.
+func (it *Interp) list() []int {
+	var ids []int
+	for _, b := range getBreakersOfResource(it.res) {
+		if _, ok := b.(*passBreaker); ok {
+			continue
+		}
+		k := -1
+		for i, o := range it.objs {
+			if o == b {
+				k = i
+			}
+		}
+		if k < 0 {
+			it.objs = append(it.objs, b)
+			k = len(it.objs) - 1
+		}
+		ids = append(ids, k)
 	}
-	for i, b := range it.objs {
-		if b == bs[0] {
-			return i
+	return ids
+}
+
+func listS(l []int) string {
+	if len(l) == 0 {
+		return "-"
+	}
+	xs := make([]string, len(l))
+	for i, k := range l {
+		xs[i] = strconv.Itoa(k)
+	}
+	return strings.Join(xs, ".")
+}
+
+func sameList(a, b []int) bool {
+	if len(a) != len(b) {
+		return false
+	}
+	for i := range a {
+		if a[i] != b[i] {
+			return false
 		}
 	}
-	it.objs = append(it.objs, bs[0])
-	return len(it.objs) - 1
+	return true
 }
+
+func copyRule(r *cb.Rule) *cb.Rule { c := *r; return &c }
 
 func (it *Interp) rule(t []string) *cb.Rule {
 	if len(t) != 5 {
@@ -202,7 +262,28 @@ func (it *Interp) parseCall(s string) (call, bool) {
 		if r == nil {
 			return call{}, false
 		}
-		return call{reload: r}, true
+		return call{reload: []*cb.Rule{r}}, true
+	case len(p) == 2 && p[0] == "rl":
+		c := call{ofRes: true}
+		real := 0
+		for _, e := range strings.Split(p[1], ",") {
+			if e == "x" {
+				c.reload = append(c.reload, &cb.Rule{Resource: it.res, Strategy: customStrategy, RetryTimeoutMs: 1000,
+					StatIntervalMs: intervalMs, StatSlidingWindowBucketCount: 1, Threshold: 1})
+				c.yields++
+				continue
+			}
+			id, err := strconv.Atoi(e)
+			if err != nil || id < 0 || id >= len(it.table) {
+				return call{}, false
+			}
+			c.reload = append(c.reload, copyRule(it.table[id]))
+			real++
+		}
+		if real == 0 {
+			return call{}, false
+		}
+		return c, true
 	}
 	return call{}, false
 }
@@ -227,7 +308,8 @@ func (it *Interp) newBreaker(t []string) bool {
 	}
 	it.rw = base.NewResourceWrapper(it.res, base.ResTypeCommon, base.Inbound)
 	it.objs, it.progs, it.log, it.logTid, it.results, it.ran = nil, nil, nil, nil, nil, false
-	it.live()
+	it.table = []*cb.Rule{copyRule(r)}
+	it.pub = it.list()
 	cb.RegisterStateChangeListeners(listener{&it.log})
 	return true
 }
@@ -238,29 +320,39 @@ func (it *Interp) worker(tid int) func() {
 		for _, c := range prog {
 			switch {
 			case c.reload != nil:
-				it.bound[tid] = -1
 				verifhook.Yield("cb.x.reload")
-				if _, err := cb.LoadRules([]*cb.Rule{c.reload}); err != nil {
+				var err error
+				if c.ofRes {
+					_, err = cb.LoadRulesOfResource(it.res, c.reload)
+				} else {
+					_, err = cb.LoadRules(c.reload)
+				}
+				if err != nil {
 					panic(err)
 				}
 			case c.tryPass:
-				// the breaker is looked up by Slot.Check itself; no yield point lies between here and that lookup
-				it.bound[tid] = it.live()
+				// Slot.Check looks the breaker list up itself; no yield point lies between here and that lookup, so the
+				// list recorded here is the one it walks over
+				it.snaps[tid] = append(it.snaps[tid], it.list())
 				ctx := base.NewEmptyEntryContext()
 				ctx.Resource = it.rw
 				e := base.NewSentinelEntry(ctx, it.rw, nil)
 				ctx.SetEntry(e)
 				r := cb.DefaultSlot.Check(ctx)
-				it.results[tid] = append(it.results[tid], r == nil || !r.IsBlocked())
-				if c.blocked {
-					// a later rule-check slot (or another breaker of the resource) blocks the request
-					ctx.RuleCheckResult = base.NewTokenResultBlocked(base.BlockTypeCircuitBreaking)
+				blocked := r != nil && r.IsBlocked()
+				it.results[tid] = append(it.results[tid], !blocked)
+				// what SlotChain.Entry does with the outcome of the rule checks
+				if blocked {
+					ctx.RuleCheckResult = r
+				} else if c.blocked {
+					// a later rule-check slot blocks the request
+					ctx.RuleCheckResult = base.NewTokenResultBlocked(base.BlockTypeFlow)
 				} else {
 					ctx.RuleCheckResult = nil
 				}
 				e.Exit()
 			default:
-				it.bound[tid] = it.live()
+				it.snaps[tid] = append(it.snaps[tid], it.list())
 				ctx := base.NewEmptyEntryContext()
 				ctx.Resource = it.rw
 				if c.err {
@@ -270,7 +362,6 @@ func (it *Interp) worker(tid int) func() {
 				cb.DefaultMetricStatSlot.OnCompleted(ctx)
 			}
 		}
-		it.bound[tid] = -1
 	}
 }
 
@@ -295,13 +386,29 @@ func (it *Interp) runSched(toks []string) string {
 		es = append(es, sched.T(int(id)))
 	}
 	n := len(it.progs)
+	// reload items of >= 2 threads while one of them yields inside the rebuild would block on the rule manager's mutex
+	// with the holder parked: such a batch is rejected (the Lean driver does the same)
+	loaders, yields := 0, false
+	for _, p := range it.progs {
+		l := false
+		for _, c := range p {
+			if c.reload != nil {
+				l = true
+				yields = yields || c.yields > 0
+			}
+		}
+		if l {
+			loaders++
+		}
+	}
+	if yields && loaders >= 2 {
+		return "bad-op"
+	}
 	ws := make([]func(), n)
 	it.results = make([][]bool, n)
-	it.bound = make([]int, n)
-	prev := make([]int, n) // bound[] as it was when the step began
+	it.snaps = make([][][]int, n)
 	for i := range ws {
 		ws[i] = it.worker(i)
-		it.bound[i], prev[i] = -1, -1
 	}
 	var out []string
 	nres := make([]int, n)
@@ -320,23 +427,23 @@ func (it *Interp) runSched(toks []string) string {
 			if s.Done {
 				to = "done"
 			}
-			live := it.live()
-			x := prev[s.Tid]
-			if x < 0 {
-				x = it.bound[s.Tid]
-			}
-			if x < 0 {
-				x = live
-			}
+			pub := it.list()
 			var b strings.Builder
-			fmt.Fprintf(&b, "%d:%s>%s:o%d:%s:%s:%d:%d", s.Tid, from, to, x, stc(it.objs[x].CurrentState()), it.dl(x),
-				it.word(x, "curProbeNumber"), it.clk.CurrentTimeMillis()-it.base)
-			if live != x {
-				fmt.Fprintf(&b, ":V%d,%s,%s,%d", live, stc(it.objs[live].CurrentState()), it.dl(live), it.word(live, "curProbeNumber"))
+			fmt.Fprintf(&b, "%d:%s>%s:%d", s.Tid, from, to, it.clk.CurrentTimeMillis()-it.base)
+			for k := range it.objs {
+				fmt.Fprintf(&b, ":W%d,%s,%s,%d", k, stc(it.objs[k].CurrentState()), it.dl(k), it.word(k, "curProbeNumber"))
 			}
-			if len(it.objs) > nobj {
-				r := it.objs[live].BoundRule()
-				fmt.Fprintf(&b, ":N%d,%d,%d", live, r.RetryTimeoutMs, r.ProbeNum)
+			if !sameList(pub, it.pub) {
+				b.WriteString(":P" + listS(pub))
+				it.pub = pub
+			}
+			for _, l := range it.snaps[s.Tid] {
+				b.WriteString(":S" + listS(l))
+			}
+			it.snaps[s.Tid] = nil
+			for k := nobj; k < len(it.objs); k++ {
+				r := it.objs[k].BoundRule()
+				fmt.Fprintf(&b, ":N%d,%d,%d", k, r.RetryTimeoutMs, r.ProbeNum)
 			}
 			for len(it.logTid) < len(it.log) {
 				n := it.log[len(it.logTid)]
@@ -347,7 +454,6 @@ func (it *Interp) runSched(toks []string) string {
 				b.WriteString(":R" + tf(it.results[s.Tid][nres[s.Tid]]))
 			}
 			out = append(out, b.String())
-			prev[s.Tid] = it.bound[s.Tid]
 			nobj = len(it.objs)
 		},
 	})
@@ -372,6 +478,16 @@ func (it *Interp) Step(t []string, op string) string {
 		if !it.newBreaker(t) {
 			return "bad-op"
 		}
+		return ""
+	case "rule":
+		if it.kind == "" || len(t) != 7 || t[1] != strconv.Itoa(len(it.table)) {
+			return "bad-op"
+		}
+		r := it.rule(t[2:])
+		if r == nil {
+			return "bad-op"
+		}
+		it.table = append(it.table, r)
 		return ""
 	case "thread":
 		if it.kind == "" || len(t) < 3 || t[1] != strconv.Itoa(len(it.progs)) || len(it.progs) >= 8 {
@@ -423,9 +539,12 @@ func (it *Interp) Step(t []string, op string) string {
 		if !it.ran {
 			return "bad-op"
 		}
-		l := it.live()
-		return fmt.Sprintf("st=%s dl=%s probe=%d clk=%d live=%d", stc(it.objs[l].CurrentState()), it.dl(l), it.word(l, "curProbeNumber"),
-			it.clk.CurrentTimeMillis()-it.base, l)
+		var b strings.Builder
+		fmt.Fprintf(&b, "clk=%d list=%s", it.clk.CurrentTimeMillis()-it.base, listS(it.list()))
+		for k := range it.objs {
+			fmt.Fprintf(&b, " o%d=%s,%s,%d", k, stc(it.objs[k].CurrentState()), it.dl(k), it.word(k, "curProbeNumber"))
+		}
+		return b.String()
 	}
 	return "bad-op"
 }
